@@ -86,7 +86,8 @@ func TestWriteVsLocalUpdate(t *testing.T) {
 				close(gate)
 				wg.Wait()
 				w.Sync()
-				if t0[0].Before(t1[1]) && t0[1].Before(t1[0]) {
+				overlap := t0[0].Before(t1[1]) && t0[1].Before(t1[0])
+				if overlap {
 					overlapped++
 				}
 				results, errNo := 0, 0
@@ -113,7 +114,8 @@ func TestWriteVsLocalUpdate(t *testing.T) {
 				if got[k1] != withoutFlag(f, mk(1, r)) {
 					world.Fail(t, "C04/unaddressed-element-changed/partial/beside-local-update", "the element the application updated at the same moment does not hold the application's value (the write does not address it): %s", desc)
 				}
-				world.Record(world.Hash("write-vs-local", fn, r), true, "write-vs-local-update")
+				// non-trivial: the two calls overlapped in time
+				world.Record(world.Hash("write-vs-local", fn, r), overlap, "write-vs-local-update")
 			}
 			world.Label(fmt.Sprintf("write-vs-local-update/overlapped-rounds/%s", bucket(overlapped, rounds)))
 			world.Sample(map[string]any{"kind": "write-vs-local-update", "function": string(fn), "rounds": rounds, "rounds_overlapping_in_time": overlapped})
